@@ -343,69 +343,74 @@ class Tables:
 
     def constraint_side(self):
         rows = []
-        fn = self.c.anchor('C01.R0', 'oal_compiler::inference::constrain')
-        ctx = Pos(fn)
+        base = self.c.anchor('C01.R0', 'oal_compiler::inference::constrain')
+        # arms moved into private helpers that receive the equation set (`constrain_uri(&mut set, uri)`) are read too
+        known = self.f.known_fns_or_aliases() if hasattr(self.f, 'known_fns_or_aliases') else set()
+        helpers = [g for g in self.f.family(base) if g.id != base.id and g.kind != 'Closure' and g.hir and g.qname not in known
+                   and g.mir and any('InferenceSet' in g.mir['locals'][i]['ty'] for i in range(1, g.mir['argc'] + 1))]
+        for fn in [base] + helpers:
+            ctx = Pos(fn)
 
-        def node_of(x):
-            if x['k'] == 'path' and x['p'].get('res') == 'local':
-                src = ctx.bind.get(x['p']['hid'])
-                if src and src[0] == 'let':
-                    x = src[1]
-                else:
-                    return None
-            if x['k'] == 'mcall' and x['name'] == 'into':
-                x = x['recv']
-            if x['k'] == 'call' and P.name_is(callee_def(x), 'get_tag'):
-                return x['args'][0]
-            return None
-
-        for e, anc in hir_walk(fn.hir['body']):
-            if e['k'] == 'mcall' and e['m'].endswith('InferenceSet::push'):
-                a, b = e['args'][0], e['args'][1]
-                na = node_of(a)
-                org = ctx.origin(na) if na is not None else None
-                g = self.gk(ctx.guards(anc))
-                nb = node_of(b)
-                orgb = ctx.origin(nb) if nb is not None else None
-                ts = self.tag_expr(ctx, b)
-                if ts is None and b['k'] == 'path' and b['p'].get('res') == 'local':
-                    src = ctx.bind.get(b['p']['hid'])
-                    if src and src[0] == 'arm':
-                        # `if let Some(t) = match .. {..}` or the match bound to a local first (`let expected = match ..`)
-                        scr = src[1]
-                        hops = 0
-                        while scr['k'] == 'path' and scr['p'].get('res') == 'local' and hops < 4:
-                            s2 = ctx.bind.get(scr['p']['hid'])
-                            if not s2 or s2[0] != 'let':
-                                break
-                            scr = s2[1]
-                            hops += 1
-                        if scr['k'] == 'call' and scr['f'].get('res') == 'def':
-                            # the table moved into a private helper (`meta_expected_tag(meta.kind())`): its body is the match
-                            hfn = self.f.fns.get(callee_id(scr))
-                            if hfn is not None and hfn.hir and hfn.crate == fn.crate:
-                                body = hfn.hir['body']
-                                while body is not None and body['k'] == 'block' and not body['stmts']:
-                                    body = body['expr']
-                                if body is not None and body['k'] == 'match':
-                                    scr = body
-                        if scr['k'] == 'match':
-                            src = ('arm', scr) + tuple(src[2:])
-                    if src and src[0] == 'arm' and src[1]['k'] == 'match':
-                        m = src[1]
-                        enum = m['scrut']['ty'].split('::')[-1]
-                        for arm in m['arms']:
-                            body = arm['body']
-                            vs = pat_variants(arm['pat'])
-                            if body['k'] == 'call' and variant_of(body['f']) == 'Some':
-                                t2 = self.tag_expr(ctx, body['args'][0])
-                                nb2 = node_of(body['args'][0])
-                                rows.append({'pos': org, 'guard': ((enum, tuple(sorted(vs))),), 'tags': t2,
-                                             'other': ctx.origin(nb2) if nb2 is not None else None, 'line': e['ln']})
-                        continue
+            def node_of(x):
+                if x['k'] == 'path' and x['p'].get('res') == 'local':
+                    src = ctx.bind.get(x['p']['hid'])
                     if src and src[0] == 'let':
-                        ts = self.tag_expr(ctx, src[1])
-                        if ts is None and src[1]['k'] == 'if':
-                            pass
-                rows.append({'pos': org, 'guard': g, 'tags': ts, 'other': orgb, 'line': e['ln']})
+                        x = src[1]
+                    else:
+                        return None
+                if x['k'] == 'mcall' and x['name'] == 'into':
+                    x = x['recv']
+                if x['k'] == 'call' and P.name_is(callee_def(x), 'get_tag'):
+                    return x['args'][0]
+                return None
+
+            for e, anc in hir_walk(fn.hir['body']):
+                if e['k'] == 'mcall' and e['m'].endswith('InferenceSet::push'):
+                    a, b = e['args'][0], e['args'][1]
+                    na = node_of(a)
+                    org = ctx.origin(na) if na is not None else None
+                    g = self.gk(ctx.guards(anc))
+                    nb = node_of(b)
+                    orgb = ctx.origin(nb) if nb is not None else None
+                    ts = self.tag_expr(ctx, b)
+                    if ts is None and b['k'] == 'path' and b['p'].get('res') == 'local':
+                        src = ctx.bind.get(b['p']['hid'])
+                        if src and src[0] == 'arm':
+                            # `if let Some(t) = match .. {..}` or the match bound to a local first (`let expected = match ..`)
+                            scr = src[1]
+                            hops = 0
+                            while scr['k'] == 'path' and scr['p'].get('res') == 'local' and hops < 4:
+                                s2 = ctx.bind.get(scr['p']['hid'])
+                                if not s2 or s2[0] != 'let':
+                                    break
+                                scr = s2[1]
+                                hops += 1
+                            if scr['k'] == 'call' and scr['f'].get('res') == 'def':
+                                # the table moved into a private helper (`meta_expected_tag(meta.kind())`): its body is the match
+                                hfn = self.f.fns.get(callee_id(scr))
+                                if hfn is not None and hfn.hir and hfn.crate == fn.crate:
+                                    body = hfn.hir['body']
+                                    while body is not None and body['k'] == 'block' and not body['stmts']:
+                                        body = body['expr']
+                                    if body is not None and body['k'] == 'match':
+                                        scr = body
+                            if scr['k'] == 'match':
+                                src = ('arm', scr) + tuple(src[2:])
+                        if src and src[0] == 'arm' and src[1]['k'] == 'match':
+                            m = src[1]
+                            enum = m['scrut']['ty'].split('::')[-1]
+                            for arm in m['arms']:
+                                body = arm['body']
+                                vs = pat_variants(arm['pat'])
+                                if body['k'] == 'call' and variant_of(body['f']) == 'Some':
+                                    t2 = self.tag_expr(ctx, body['args'][0])
+                                    nb2 = node_of(body['args'][0])
+                                    rows.append({'pos': org, 'guard': ((enum, tuple(sorted(vs))),), 'tags': t2,
+                                                 'other': ctx.origin(nb2) if nb2 is not None else None, 'line': e['ln']})
+                            continue
+                        if src and src[0] == 'let':
+                            ts = self.tag_expr(ctx, src[1])
+                            if ts is None and src[1]['k'] == 'if':
+                                pass
+                    rows.append({'pos': org, 'guard': g, 'tags': ts, 'other': orgb, 'line': e['ln']})
         return rows
